@@ -229,3 +229,65 @@ func H_C17_HostDecorated() {
 		nd.Assert(a.IPVersion() == "", "hostdecorated/no-version-for-invalid-host")
 	}
 }
+
+// wireAddr assembles a RouterAddress encoding with the option pairs in the GIVEN order (the wire parser does not
+// require sorted options) and parses it.
+func wireAddr(keys, vals []string) (router_address.RouterAddress, bool) {
+	var body []byte
+	for i := range keys {
+		body = append(body, byte(len(keys[i])))
+		body = append(body, keys[i]...)
+		body = append(body, '=', byte(len(vals[i])))
+		body = append(body, vals[i]...)
+		body = append(body, ';')
+	}
+	b := []byte{5, 0, 0, 0, 0, 0, 0, 0, 0, 4, 'S', 'S', 'U', '2', byte(len(body) >> 8), byte(len(body))}
+	b = append(b, body...)
+	a, _, err := router_address.ReadRouterAddress(b)
+	return a, err == nil
+}
+
+// H_C17_WireOrder: accessors do not depend on the order in which the options arrived: an address parsed from the wire
+// with its options in either order (two arbitrary one-byte keys; "port" before "host") answers GetOption / Host / Port
+// as the same options in sorted order do.
+//
+//verif:props C17
+//verif:witness parsed
+func H_C17_WireOrder() {
+	if nd.Bool() {
+		k1, k2 := nd.String(1), nd.String(1)
+		v1, v2 := nd.String(1), nd.String(1)
+		nd.Assume(k1 != k2)
+		a, ok := wireAddr([]string{k1, k2}, []string{v1, v2})
+		if !ok {
+			return
+		}
+		nd.Cover("parsed")
+		q1, _ := data.ToI2PString(k1)
+		q2, _ := data.ToI2PString(k2)
+		g1, g2 := a.GetOption(q1), a.GetOption(q2)
+		nd.Assert(g1 != nil && g2 != nil, "wireorder/both-keys-found-in-any-order")
+		if g1 != nil && g2 != nil {
+			d1, _ := g1.Data()
+			d2, _ := g2.Data()
+			nd.Assert(d1 == v1 && d2 == v2, "wireorder/values-of-their-keys")
+		}
+		return
+	}
+	order := nd.Bool()
+	keys, vals := []string{"host", "port"}, []string{"1.2.3.4", "8080"}
+	if order {
+		keys, vals = []string{"port", "host"}, []string{"8080", "1.2.3.4"}
+	}
+	a, ok := wireAddr(keys, vals)
+	nd.Assert(ok, "wireorder/well-formed-address-parses")
+	if !ok {
+		return
+	}
+	nd.Cover("parsed")
+	h, herr := a.Host()
+	nd.Assert(herr == nil && h != nil && h.String() == "1.2.3.4", "wireorder/host-found-in-any-order")
+	p, perr := a.Port()
+	nd.Assert(perr == nil && p == "8080", "wireorder/port-found-in-any-order")
+	nd.Assert(a.HasValidHost() && a.HasValidPort(), "wireorder/validity-helpers-agree")
+}
